@@ -288,7 +288,7 @@ def improvement_cases(tier):
 
 
 SUBS = [
-    Sub("solutions", execute, strategy=cases, budget={"quick": 2500, "thorough": 40000}, shards=16),
+    Sub("solutions", execute, strategy=cases, budget={"quick": 4000, "thorough": 40000}, shards=16),
     Sub("improvement", execute_improvement, strategy=improvement_cases, budget={"quick": 600, "thorough": 8000}, shards=16),
 ]
 TIME_CAP = {"quick": 400, "thorough": 3000}
